@@ -7,11 +7,11 @@ import vpcore as v
 from vprun import Run
 
 # factor sizes, in the order of spec/NegotiateDom.tla (kept in step by check_dom below)
-SIZES = [2, 3, 5, 5, 5, 6, 4, 4, 5, 7, 9, 9, 9, 4, 3, 3, 3, 2, 2]
+SIZES = [2, 3, 5, 5, 5, 6, 6, 4, 5, 9, 9, 9, 9, 4, 3, 3, 3, 2, 2]
 NAMES = ["las", "peer", "lv4", "lv6", "lvpn4", "lhold", "lka", "lgr", "ras", "rhold", "rv4", "rv6", "rvpn4",
          "rother", "rext", "rgr", "layout", "order", "bulk"]
 PEER, LHOLD, LKA, RHOLD = 1, 5, 6, 9
-ACCEPT = {PEER: [1, 2], RHOLD: [1, 4, 5, 6, 7]}          # configurations x OPENs that must come up
+ACCEPT = {PEER: [1, 2], RHOLD: [1, 4, 5, 6, 7, 8, 9]}          # configurations x OPENs that must come up
 CHUNK = 250
 BASE = [1, 1, 2, 1, 1, 1, 1, 1, 1, 6, 2, 1, 1, 1, 1, 1, 1, 1, 2]
 
@@ -79,6 +79,13 @@ def suites(tier, seed):
     # refused OPENs: hold time 1/2 and a wrong AS, pairwise with what could influence the answer
     ref = domain({RHOLD: [2, 3, 4, 7]})
     s["refuse"] = [r for r in pairwise(ref, rng, free=[0, 1, 5, 7, 8, 9, 16, 17])]
+    # keepalive boundary: configured hold time (90 default, 3, 9, 30, 0) x configured keepalive
+    # (none, 1, 2, 5, 20, 45: shorter / longer than a third, and not below the hold time) x
+    # peer hold time (0, 3, 9, 10, 30, 90, 65535): equal, smaller and larger than the local one
+    kb = domain()
+    kb[LHOLD], kb[RHOLD] = [1, 2, 3, 4, 6], [1, 4, 8, 5, 6, 9, 7]
+    s["keepalive"] = [list(BASE[:LHOLD]) + [a, b] + list(BASE[LKA + 1:RHOLD]) + [c] + list(BASE[RHOLD + 1:])
+                      for a in kb[LHOLD] for b in kb[LKA] for c in kb[RHOLD]]
     if tier == "thorough":
         for k in range(2):
             s["pairwise"] += pairwise(acc, rng)
